@@ -463,6 +463,7 @@ func checkC10(w *World, r *Report) {
 	r.Rule("R10.4", "fixed-size records filled exactly", 2)
 	r.Rule("R10.5", "name-carrying records go through PrepareHostname", 3)
 	r.Rule("R10.6", "private record type registered = emitted", 1)
+	r.Rule("R10.7", "tag + chunk fits the record type's rdata limit", 3)
 
 	pairLayouts(w, r, "R10.1", "Response")
 	c10Records(w, r)
@@ -674,6 +675,17 @@ func c10Records(w *World, r *Report) {
 		}
 		r.Check(wi.TagLen+wi.Chunk == size, "R10.4", key, w.Pos(wi.Fn.Pos()), fmt.Sprintf("tag %d + chunk %d = %d octets", wi.TagLen, wi.Chunk, size),
 			fmt.Sprintf("tag %d + chunk %d != %d: the address record cannot be packed", wi.TagLen, wi.Chunk, size))
+	}
+	// R10.7: tag + chunk fits the rdata limit of the record type
+	for name, limit := range map[string]int64{"TXT": 255, "NULL": 65535, "PrivateRR": 65535} {
+		wi, ok := wraps[name]
+		key := "recordtype:" + name + "|capacity"
+		if !ok {
+			r.Undecided("R10.7", key, "-", "wrapper not found")
+			continue
+		}
+		r.Check(wi.Chunk > 0 && wi.TagLen+wi.Chunk <= limit, "R10.7", key, w.Pos(wi.Fn.Pos()), fmt.Sprintf("tag %d + chunk %d <= %d", wi.TagLen, wi.Chunk, limit),
+			fmt.Sprintf("tag %d + chunk %d exceeds the %d-octet limit of a %s %s: such a record cannot be packed", wi.TagLen, wi.Chunk, limit, name, mapStr(name == "TXT", "character-string")+mapStr(name != "TXT", "rdata")))
 	}
 	// R10.5
 	for _, name := range names {
